@@ -196,7 +196,7 @@ func init() {
 		Asserts:      []string{"C07.init", "C07.inv", "C07.connack_only_after_accept", "C07.nothing_relayed_before_accept", "C07.illegal_closes_session"},
 		Reach:        []string{"C07.connected_state", "C07.connack_accepted", "C07.illegal_before_connect"},
 		Bounds:       gwBounds, Outside: gwOutside,
-		FrameCallees: []string{"(*github.com/energomonitor/bisquitt/gateway.handler1).setState", "(*github.com/energomonitor/bisquitt/util.ClientState).Set"},
+		FrameCallees: []string{"(*github.com/energomonitor/bisquitt/gateway.handler1).setState", "(*github.com/energomonitor/bisquitt/util.ClientState).Set|github.com/energomonitor/bisquitt/gateway"},
 	})
 }
 
